@@ -585,7 +585,7 @@ func IsFieldOf(typ, field string) func(ssa.Value) bool {
 		if f == nil || f.Name() != field {
 			return false
 		}
-		return typ == "" || owner == typ || strings.HasSuffix(owner, "."+typ)
+		return typ == "" || owner == typ || strings.HasSuffix(owner, "."+typ) || strings.HasSuffix(owner, "/"+typ)
 	}
 }
 
